@@ -13,6 +13,9 @@ def build_formula(logic, f, mode):
     (its parser builds the object); 'ctls-obj': construct as a CTL* object and let modelcheck cast."""
     if mode == 'text':
         return to_text(f, logic)
+    if mode == 'raw':           # constructor shorthand: atoms and Booleans passed as plain str / bool operands
+        import synfam
+        return synfam.build(f, LANGS[logic], 'raw')
     if mode == 'ctls-obj':
         return to_obj(f, pymc.CTLS)
     return to_obj(f, LANGS[logic])
@@ -76,7 +79,7 @@ def mc_event(case):
     S0 = case.get('S0')
     if S0 is None:
         S0 = [] if t % 3 == 0 else [i for i in range(K['n']) if (i + t) % 3 == 0] if t % 3 == 1 else [t % K['n']]
-    k, name, index_of = mk_kripke(K, case.get('naming', 'int'), rng=rng, S0=S0)
+    k, name, index_of = mk_kripke(K, case.get('naming', 'int'), rng=rng, S0=S0, relabel=case.get('relabel', t % 7 == 5))
     try:
         formula = build_formula(case['logic'], case['f'], case.get('mode', 'obj'))
     except Exception as ex:       # constructing a well-formed formula must not fail
